@@ -81,6 +81,18 @@ CHECKS = {
              "homogeneous by its own formula); relations on spreads/widths are not demanded where the exact value is < 1e-3.",
         technique="TLA+ action properties on the exact lattice + metamorphic replay",
         ref="§4 C10", engine="tlc"),
+    "C03": dict(
+        text="Partition.tla models the pipeline np_ptm1/2/3 run after the watershed (mask by label, classify by wind-sea fraction "
+             "against the cutoff with 0/0 => swell, PTM2's secondary wind sea, order by the array-level trapezoid Hs with ties free, "
+             "truncate/zero-pad) and, independently, restates the property clause by clause; TLC checks that every result the pipeline "
+             "can return satisfies the clauses for every spectrum x canonical label map x wave-age mask x cutoff x requested count on "
+             "small grids. Each state is replayed into the real functions with the watershed stubbed to the state's label map, and "
+             "random spectra (smooth, noisy, plateau, sparse, constant) run through the real watershed, np_ptm* and the accessor methods "
+             "on (time, site) datasets are validated by PartitionTrace.tla against the same clauses.",
+        note="Trusted: TLC; integer energies; wave-age masks realised by one deep-water wind with 0.5 % decision margin; exact "
+             "wsfrac = wscut ties not replayed; pipeline-model membership in traces only for <= 5 classes (the clauses always).",
+        technique="TLA+ pipeline model + declarative clauses, TLC refinement check, stubbed replay and trace validation",
+        ref="§4 C03", engine="tlc"),
 }
 
 NOT_YET = "check not yet built in this round (see DESIGN.md §4 for the planned TLA+ model); not claimed"
